@@ -89,7 +89,7 @@ def cli_replay(rows_spec, order, desc):
         if not bad and order:
             idx = {'key': 0, 'keylast': 0, 'count': 1, 'sum': 2}[order]
             col = [g[idx] for g in got]
-            keyf = (lambda x: x) if order == 'key' else (lambda x: int(x))
+            keyf = (lambda x: x) if order in ('key', 'keylast') else (lambda x: int(x))
             srt = sorted(col, key=keyf, reverse=desc)
             if [keyf(x) for x in col] != [keyf(x) for x in srt]:
                 bad = True; det += ' ; rows are not sorted by %s %s' % (order, 'desc' if desc else 'asc')
